@@ -142,7 +142,10 @@ class Backends:
                     if P.gint(loc) != P.gint(m.node_coordinates(l)):
                         o['err'] = f'nodes_nbrto({n}) returns a wrong location for {l}'
             en = []
+            lk = {tuple(e): fs for e, fs in self.linked} if not is_sq else {}
             for (a, b) in self.edges[:6]:
+                if not is_sq and any(x not in m.graph for f in lk.get((a, b), []) for x in f):
+                    continue        # a link to a node that has not been added (yet) is outside the map's contract
                 if is_sq or (a in m.graph and b in m.graph):
                     try:
                         res = m.edges_nbrto((a, b))
@@ -472,7 +475,7 @@ def replay(pid, case):
     place = place_from(run_['place'])
     evs = [{k: v for k, v in e.items() if k not in ('sq', 'im', 'q')} for e in run_['events']]
     # re-run the same history and the same queries
-    B = Backends(place, tuple(run_['crs']), 'replay%d' % os.getpid(), common.scratch())
+    B = Backends(place, tuple(run_['crs']), 'replay%d' % os.getpid(), common.scratch(), linked=run_.get('imlinked') or None)
     new = dict(run_, events=[])
     try:
         with contextlib.redirect_stdout(io.StringIO()):
